@@ -2471,7 +2471,11 @@ func (ts *TokenStore) handleTidy(ctx context.Context, req *logical.Request, data
 				// that deletion of children later with this loop below applies to all
 				// children
 				originalChildrenCount := int64(len(children))
-				exists, _ := ts.lookupInternal(quitCtx, strings.TrimSuffix(parent, "/"), true, true)
+				exists, err := ts.lookupInternal(quitCtx, strings.TrimSuffix(parent, "/"), true, true)
+				if err != nil {
+					tidyErrors = multierror.Append(tidyErrors, fmt.Errorf("failed to look up parent token: %w", err))
+					continue
+				}
 				if exists == nil {
 					ts.logger.Debug("deleting invalid parent prefix entry", "index", parentPrefix+parent)
 				}
@@ -2488,7 +2492,28 @@ func (ts *TokenStore) handleTidy(ctx context.Context, req *logical.Request, data
 					// found, it doesn't exist. Doing the following without locking
 					// since appropriate locks cannot be held with salted token IDs.
 					// Also perform deletion if the parent doesn't exist any more.
-					te, _ := ts.lookupInternal(quitCtx, child, true, true)
+					//
+					// The index key of a child outside the root namespace carries
+					// the ID of the child's namespace; the child itself is stored
+					// under its bare salted ID in that namespace.
+					childID, childNSID := namespace.SplitIDFromString(child)
+					childCtx := quitCtx
+					if childNSID != "" {
+						childNS, err := ts.core.NamespaceByID(quitCtx, childNSID)
+						if err != nil {
+							tidyErrors = multierror.Append(tidyErrors, fmt.Errorf("failed to look up namespace of child token: %w", err))
+							continue
+						}
+						if childNS != nil {
+							childCtx = namespace.ContextWithNamespace(quitCtx, childNS)
+						}
+					}
+
+					te, err := ts.lookupInternal(childCtx, childID, true, true)
+					if err != nil {
+						tidyErrors = multierror.Append(tidyErrors, fmt.Errorf("failed to look up child token: %w", err))
+						continue
+					}
 					// If the child entry is not nil, but the parent doesn't exist, then turn
 					// that child token into an orphan token. Theres no deletion in this case.
 					if te != nil && exists == nil {
@@ -2497,10 +2522,10 @@ func (ts *TokenStore) handleTidy(ctx context.Context, req *logical.Request, data
 
 						// Re-read the entry under its lock so that a stale copy
 						// is not written back over a concurrent update.
-						te, err = ts.lookupInternal(quitCtx, child, true, true)
+						te, err = ts.lookupInternal(childCtx, childID, true, true)
 						if err == nil && te != nil {
 							te.Parent = ""
-							err = ts.store(quitCtx, te)
+							err = ts.store(childCtx, te)
 						}
 						if err != nil {
 							tidyErrors = multierror.Append(tidyErrors, fmt.Errorf("failed to convert child token into an orphan token: %w", err))
